@@ -12,7 +12,7 @@ def run(tier, seed, replay=None):
     check.coverage['rule'] = ('configurations drawn from {String, Bytes, Bincode<struct>} x {none, gzip, zlib, zstd, lz4, brotli generic/text/font} x level {preset fastest/balanced/highest, '
                               'default, explicit in the library range} x batching {off, size in {0,1,2,3,7,100} x interval in {0, 5 ms, 1 h}} x {send, feed} x counts around multiples of the '
                               'batch size x payload classes (empty .. 5 kB, every 12th case 130-190 kB items, every 10th case a batch that mixes one 70-200 kB item among small ones, every 14th case byte items whose frame payload lies in the last 12 bytes below the 1 MiB frame limit - unbatched: 9 + n, as a batch of one: 16 + n); each case: real Subscriber and a raw frame-recording subscriber register, then a real Publisher sends and '
-                              'finish()es over loopback QUIC through the real server; non-trivial = distinct configuration line')
+                              'finish()es over loopback QUIC through the real server (batched cases with an even number of items duplicate() the publisher half-way and finish the idle duplicate, which must deliver nothing); non-trivial = distinct configuration line')
     check.coverage['trusted_base'] = TRUSTED_BASE_COMMON + [
         'contracts, not verified: the payload codec and the compression pair are Section variables with decode(encode x) = x and decompress(compress b) = b (C14 checks them)',
         'modelled, not verified: tokio_util FramedWrite buffering (frames sit in the writer until flushed), SinkExt::send/feed; QUIC in-order reliable delivery and the server pass-through (C01) are assumed by the theorem and exercised by the run',
